@@ -1,5 +1,26 @@
 package main
 
-// Additional models (context, xrand, misc) are registered here.
+import (
+	"go/types"
+)
+
+// Additional models (context, xrand, misc).
 func (i *interpreter) registerExtraModels() {
+	i.addModel("context.WithValue", "real valueCtx node; key comparability decided by go/types (the real code asks reflectlite)", func(fr *frame, a []value) value {
+		parent := a[0].(iface)
+		key := a[1].(iface)
+		if parent.t == nil {
+			panic(targetPanic{iface{types.Typ[types.String], "cannot create context from nil parent"}})
+		}
+		if key.t == nil {
+			panic(targetPanic{iface{types.Typ[types.String], "nil key"}})
+		}
+		if !types.Comparable(key.t) {
+			panic(targetPanic{iface{types.Typ[types.String], "key is not comparable"}})
+		}
+		pkg := fr.i.prog.ImportedPackage("context")
+		tn := pkg.Type("valueCtx")
+		var cell value = structure{parent, key, a[2]}
+		return iface{types.NewPointer(tn.Type()), &cell}
+	})
 }
